@@ -12,7 +12,7 @@
  *     6  decoders with a fixed-capacity output (ext_key_usage max_cnt, user_notice max numbers, policy ids, general_name,
  *        directory name, display text ...)
  *     7  same as 0 on the second half / 1 on the whole (cross-checks between two objects: name_equ, verify_by_ca_cert)
- * FZ_SKIP: oid33, seqint, aia (an access method other than OCSP / caIssuers after the AuthorityInfoAccess id)
+ * FZ_SKIP: oid33, seqint, iap, dpuri (x509_uri_as_distribution_points_from_der is not called), aia (an access method other than OCSP / caIssuers after the AuthorityInfoAccess id)
  */
 #define FZ_TARGET "fz_x509"
 #include "fz_common.h"
@@ -241,7 +241,9 @@ static void fixed_capacity(const uint8_t *obj, size_t n, int par)
 	RESET(); { time_t t1, t2; if (x509_validity_from_der(&t1, &t2, &in, &inlen) == 1) FZ_ACCEPT(); }
 	RESET(); { time_t t1; if (x509_time_from_der(&t1, &in, &inlen) == 1) FZ_ACCEPT(); }
 	RESET(); if (x509_explicit_version_from_der(par & 3, &a, &in, &inlen) == 1) FZ_ACCEPT();
-	RESET(); { const char *uri; size_t urilen; if (x509_uri_as_distribution_points_from_der(&uri, &urilen, &a, &d, &dlen, &in, &inlen) == 1) FZ_ACCEPT(); }
+	/* dpuri: the function tests *uri although the inner decoder leaves it unwritten when there is no fullName URI */
+	if (fz_skip("dpuri")) FZ_EXCLUDED();
+	else { const char *uri; size_t urilen; RESET(); if (x509_uri_as_distribution_points_from_der(&uri, &urilen, &a, &d, &dlen, &in, &inlen) == 1) FZ_ACCEPT(); }
 	RESET(); { const char *uri; size_t urilen; if (x509_access_description_from_der(&a, &uri, &urilen, &in, &inlen) == 1) FZ_ACCEPT(); }
 	RESET(); { time_t rd; const uint8_t *ser; size_t serlen; if (x509_revoked_cert_from_der(&ser, &serlen, &rd, &d, &dlen, &in, &inlen) == 1) FZ_ACCEPT(); }
 	RESET(); if (x509_crl_entry_ext_from_der(&a, &b, &d, &dlen, &in, &inlen) == 1) FZ_ACCEPT();
@@ -261,8 +263,7 @@ int LLVMFuzzerTestOneInput(const uint8_t *data, size_t size)
 	sel = fz_u8(&in);
 	par = fz_u8(&in);
 	n = in.n;
-	if ((fz_skip("oid33") && fz_long_oid(in.p, n))
-		|| (fz_skip("aia") && fz_aia_unknown(in.p, n, (sel & 7) == 6 || ((sel & 7) == 4 && (par % N_PRINTERS == 48 || par % N_PRINTERS == 49))))) {
+	if (fz_skip_x509_shapes(in.p, n, (sel & 7) == 6 || ((sel & 7) == 4 && (par % N_PRINTERS == 48 || par % N_PRINTERS == 49)))) {
 		FZ_EXCLUDED();
 		fz_end();
 		return 0;
